@@ -14,7 +14,7 @@
 (* reuse and compares every operation's result with the result of the same    *)
 (* operation performed first in a fresh process (and, for runs, with the      *)
 (* interpreter model's outcome).                                              *)
-EXTENDS Integers, Sequences, FiniteSets, TLC, Json
+EXTENDS Integers, Sequences, FiniteSets, TLC, Json, HistoryTables
 
 CONSTANTS NOps,      \* operations are numbered 1..NOps; their kinds are given by KindOf
           MaxLen
@@ -29,16 +29,9 @@ KindOf(o) == IF o > NOps THEN "rerun" ELSE Kinds[((o - 1) % Len(Kinds)) + 1]
 RunKinds == {"run_ok", "run_err_in_loops", "run_exit_in_loop", "run_cancelled", "run_use", "run_err_after_return", "run_rename_drop",
              "run_v2", "run_err_in_if", "run_err_in_cond", "run_bq_keywords", "run_grok_digits", "run_grok_letters", "run_sql_bs1", "run_sql_bs2"}
 
-Objects == {"parser", "task", "point"}
-Fields == [parser |-> {"errs", "parseResult", "injecting", "inject", "lex", "posCache", "yystate"},
-           task |-> {"scopes", "regs", "input", "funcs", "callRef", "brk", "cont", "signal", "exit", "name", "private"},
-           point |-> {"measurement", "tags", "fields", "time", "drop", "meta"}]
-\* what taking the object from its pool (newParser / GetContext+InitCtx / InitPt) re-initialises
-Reset == [parser |-> {"errs", "parseResult", "injecting", "lex", "posCache"},
-          task |-> Fields.task,                 \* PutContext zeroes the whole struct, InitCtx sets the rest
-          point |-> Fields.point]
-\* fields an operation writes before reading them
-WritesFirst == [parser |-> {"inject", "yystate"}, task |-> {}, point |-> {}]
+Fields == [o \in Objects |-> FieldsOf(o)]
+Reset == [o \in Objects |-> ResetOf(o)]
+WritesFirst == [o \in Objects |-> WritesFirstOf(o)]
 \* objects and fields an operation of each kind uses
 Uses(k) == IF k \in {"parse_err_eof", "parse_err_mid", "lex_err", "parse_rejected_operand"} THEN {"parser"}
            ELSE IF k \in {"check_err", "check_err_grok"} THEN {"parser", "task"}
